@@ -560,10 +560,18 @@ func (fid *SrvFid) bind() {
 // unbind drops the fid table's reference, if it is still held (a clunk and
 // the closing of the connection may both try).
 func (fid *SrvFid) unbind() {
+	conn := fid.Fconn
+	conn.Lock()
 	fid.Lock()
 	was := fid.bound
 	fid.bound = false
 	fid.Unlock()
+	// the number is free again at once, also while requests sent earlier
+	// are still working on the fid
+	if was && conn.fidpool[fid.fid] == fid {
+		delete(conn.fidpool, fid.fid)
+	}
+	conn.Unlock()
 	if was {
 		fid.DecRef()
 	}
